@@ -1,5 +1,5 @@
 """Check specifications of the concurrent properties."""
-from . import conc, queue, adder, breaker
+from . import conc, queue, adder, breaker, pool
 
 T1_TRUST = [
     "cooperative scheduler + import-rewritten scratch copy of /repo (tools/mkinst.py, shim/): sync/atomic and sync calls are the scheduling points; "
@@ -18,6 +18,10 @@ AMODEL = "Adder/StripedModel.v (striped64.go+jdkAdder.go and, with the f64 flag,
 BMODEL = "Breaker/BreakerModel.v (nonBlockingCircuitBreaker.go + slidingWindowCounter.go + eventCount.go; reservoir queue and bucket adders bound to atomic specification objects; trip rule = Pure/Config.v exceeds)"
 BTRUST = ["inside package cbreaker every queue / adder call is ONE atomic step on a specification object (wrappers shim/vqueue, shim/vadder around the real implementations): sound by linearizability of those components (C01/C13, C02/C09), an explicit composition step",
           "Ticker readings are a stream chosen by the scenario (theorems: any stream); wall-clock meaning of ticks is outside the model"]
+PMODEL = "Pool/PoolModel.v (worker-pool/pool.go: submissions, Start, Stop, fixed and expanded workers; one step per atomic / lock / wait-group / channel / select / context / timer operation)"
+PTRUST = ["the channel, select, go, context and timer constructs of pool.go are rewritten syntactically (tools/chanrw) into a cooperative runtime (shim/vchan, vcontext, vtime, vsync.WaitGroup) whose semantics follow the Go specification for buffered channels and Go >= 1.23 timers; that runtime and the rewriter are trusted, validated only by these runs",
+          "timers fire only through the scenario's Fire operation; wall-clock durations (ExpandedLifetime) are outside the model",
+          "client obligations: each Task is submitted once; results are read only through Result()"]
 QMODEL = "Queue/JdkModel.v (hand-written step machine of jdkLinkedQueue.go + node.go, one step per sync/atomic access) and Queue/MutexModel.v (mutexLinkedQueue.go)"
 
 SPECS = {
@@ -48,4 +52,14 @@ SPECS = {
                 relevant=r"state machine|did not complete"),
     "C10": spec("C10", "Sliding-window counter neither invents, double-counts nor loses events", "breaker", breaker.gen_c10, BMODEL, trusted=BTRUST,
                 relevant=r"window|did not complete"),
+    "C04": spec("C04", "Every accepted task runs exactly once and yields exactly one result", "pool", pool.gen_c04, PMODEL, trusted=PTRUST,
+                relevant=r"executed \d+ times|delivered|refused|with context|lost|without having been executed|panicked|hangs|did not complete"),
+    "C08": spec("C08", "Stop drains accepted work and leaves no goroutine behind", "pool", pool.gen_c08, PMODEL, trusted=PTRUST,
+                relevant=r"Stop returned|before Stop|never released|panicked|hangs|did not complete"),
+    "C11": spec("C11", "Pool parallelism is capped, reaches its cap, and expansion is temporary", "pool", pool.gen_c11, PMODEL, trusted=PTRUST,
+                relevant=r"simultaneously|expand to exactly|expanded-worker counter|hangs|did not complete"),
+    "C12": spec("C12", "Submitting around Start/Stop never panics and never strands a task", "pool", pool.gen_c12, PMODEL, trusted=PTRUST,
+                relevant=r"panicked|hangs|never released|lost|did not complete"),
+    "C17": spec("C17", "TryDo never blocks; Do applies backpressure and yields to cancellation", "pool", pool.gen_c17, PMODEL, trusted=PTRUST,
+                relevant=r"requires|waiting|hangs|panicked|did not complete"),
 }
